@@ -7,7 +7,7 @@
                        pulse and every t in [0, total) the program plays  at_ pcs c t  (half-open junctions). *)
 From Coq Require Import ZArith QArith List Bool.
 Require Import QV.C01.Model QV.C01.Spec QV.C01.Proofs QV.C01.ProofsDefs QV.C01.Proofs_trafo QV.C01.Proofs_table
-        QV.C01.Proofs_comp QV.C01.Proofs_atoms QV.C01.Proofs_main QV.C01.Proofs_sampling QV.C01.Proofs_leaves QV.C01.Proofs_atoms2 QV.C01.Proofs_chans.
+        QV.C01.Proofs_comp QV.C01.Proofs_atoms QV.C01.Proofs_main QV.C01.Proofs_sampling QV.C01.Proofs_leaves QV.C01.Proofs_atoms2 QV.C01.Proofs_chans QV.C01.Proofs_builder.
 Import ListNotations.
 Open Scope Q_scope.
 
@@ -15,8 +15,10 @@ Open Scope Q_scope.
         what is still open is visible and type-checked ---- *)
 Definition C01_denotes_statement : Prop :=
   forall p env cm r, guard_C01_par_order false p = true ->   (* guard of known finding (ii) *)
-    guard_C01_tables p (SDict env) (cm_of cm) = true ->      (* guard of the refuted table class (triple final time point),
-                                                                zero-length linear entries, non-positive FunctionPT duration *)
+    guard_C01_tables p (SDict env) (cm_of cm) = true ->      (* guard of the refuted atom classes (table with a triple final
+                                                                time point; AtomicMultiChannelPT part of duration 0 next to a
+                                                                part of positive duration), zero-length linear entries,
+                                                                non-positive FunctionPT duration *)
     create_program p env cm None = Ok r ->
     exists pcs, denote_top p env cm = Ok pcs /\
                 match r with None => pcs = [] | Some prog => plays prog pcs end.
@@ -235,3 +237,55 @@ Example C01_errors_channel_clash :
   create_program p [] [(ChS 2, Some (ChS 1))] None = Err EValue /\
   exists pcs, denote_top p [] [(ChS 2, Some (ChS 1))] = Ok pcs.
 Proof. split; [vm_compute; reflexivity|]. eexists. vm_compute. reflexivity. Qed.
+
+(* ---- round 3 ---- *)
+(* the LoopBuilder's frame stack (StackFrame.iterating, pushed by with_sequence / with_repetition / with_iteration, read by
+   inner_scope) is modelled by `cpb` / `create_program_b` (what the correspondence check runs); it never influences the
+   program: the builder form equals the functional form all theorems above are about.  (A repetition frame that inherits
+   the enclosing iteration - seeded change C01-4 - falsifies exactly this equation.) *)
+Theorem C01_builder_frames : forall p s cm gt st, cpb p s cm gt st = cp p s cm gt.
+Proof. exact cpb_cp. Qed.
+Print Assumptions C01_builder_frames.
+
+Theorem C01_builder_stack_irrelevant : forall p env cm gt, create_program_b p env cm gt = create_program p env cm gt.
+Proof. exact create_program_b_eq. Qed.
+Print Assumptions C01_builder_stack_irrelevant.
+
+Example C01_builder_rebinding :
+  exists prog, create_program_b witness_rebind [] [] None = Ok (Some prog) /\
+    play prog (ChS 1) 0 = Some (10 # 1) /\ play prog (ChS 1) (2 # 1) = Some (7 # 1).
+Proof. destruct rebind_witness as (prog & A & B & C & _). exists prog. auto. Qed.
+
+(* ---- refuted on the unchanged code (known finding `multi-zero-duration-part`): AtomicMultiChannelPT(ConstantPT(d, {A: 1}),
+        ConstantPT(1, {B: 2})) with d = 0 is accepted; the part on A (kept channel, duration 0) is silently dropped and the
+        program plays B alone, although the parts have unequal durations and the template denotes nothing ---- *)
+Theorem C01_multi_zero_refuted :
+  exists p env cm prog,
+    create_program p env cm None = Ok (Some prog) /\ denote_top p env cm = Err EValue /\
+    loop_chans prog <> pt_chans p /\
+    guard_C01_par_order false p = true /\ guard_C01_tables p (SDict env) (cm_of cm) = false.
+Proof.
+  destruct multi_zero_refuted as (prog & H1 & H2 & H3 & H4 & H5 & H6).
+  exists witness_multi_zero, [(1%N, 0)], [], prog. repeat split; auto. rewrite H3, H4. discriminate.
+Qed.
+Print Assumptions C01_multi_zero_refuted.
+
+(* ... and with the duration following a loop index the program cannot be sampled at all *)
+Theorem C01_multi_zero_unplayable :
+  exists p env cm prog,
+    create_program p env cm None = Ok (Some prog) /\ to_waveform prog = Err EValue /\
+    guard_C01_tables p (SDict env) (cm_of cm) = false.
+Proof.
+  destruct multi_zero_unplayable as (prog & H1 & H2 & H3). exists witness_multi_zero_loop, [], [], prog. auto.
+Qed.
+Print Assumptions C01_multi_zero_unplayable.
+
+(* the new conjunct of the guard excludes exactly that class: equal durations, parts whose channels are all dropped and
+   templates whose parts all have duration 0 pass *)
+Example C01_multi_guard_nonvacuous :
+  let a := AMulti [AConst (EV 1%N) [(ChS 1, EC 1)]; AConst (EC 1) [(ChS 2, EC (2 # 1))]] in
+  atom_guard a (SDict [(1%N, 1)]) (cm_of []) = true /\
+  atom_guard a (SDict [(1%N, 0)]) (cm_of [(ChS 1, None)]) = true /\
+  atom_guard (AMulti [AConst (EV 1%N) [(ChS 1, EC 1)]; AConst (EC 0) [(ChS 2, EC 1)]]) (SDict [(1%N, 0)]) (cm_of []) = true /\
+  atom_guard a (SDict [(1%N, 0)]) (cm_of []) = false.
+Proof. exact multi_guard_nonvacuous. Qed.
